@@ -58,31 +58,26 @@ _HDR_PT = "The current values for each jaxtyping PyTree structure annotation are
 
 
 def parse_bindings(text: str):
-    """-> (axes: {name: int | tuple}, structures: {name: str}); raises ValueError
-    on text that is not in the documented print_bindings format."""
+    """-> (axes: {name: int | tuple}, structures: {name: str}) from print_bindings() text /
+    the tail of an error message.  Deliberately tolerant of the wording: every line of the
+    form `name=value` is a binding (an integer = an axis, a parenthesised tuple = a `*name`
+    axis, anything else = a PyTree structure); other lines (headers) are ignored."""
     axes, structs = {}, {}
-    mode = None
     for line in text.splitlines():
-        if not line.strip():
+        line = line.rstrip()
+        if "=" not in line or line.endswith("."):
             continue
-        if line.startswith("The current values for each jaxtyping axis"):
-            mode = "ax"
-        elif line.startswith("The current values for each jaxtyping PyTree"):
-            mode = "pt"
-        else:
-            name, _, val = line.rpartition("=") if mode == "ax" else line.partition("=")
-            if not _:
-                raise ValueError(f"unparseable bindings line {line!r}")
-            if mode == "ax":
-                val = val.strip()
-                if val.startswith("("):
-                    axes[name] = tuple(int(x) for x in re.findall(r"-?\d+", val))
-                else:
-                    axes[name] = int(val)
-            elif mode == "pt":
-                structs[name] = val
+        if re.fullmatch(r".*=\s*-?\d+", line) or re.fullmatch(r".*=\s*\([-\d, ]*\)", line):
+            name, _, val = line.rpartition("=")
+            val = val.strip()
+            if val.startswith("("):
+                axes[name] = tuple(int(x) for x in re.findall(r"-?\d+", val))
             else:
-                raise ValueError(f"bindings line before header: {line!r}")
+                axes[name] = int(val)
+        else:
+            name, _, val = line.partition("=")
+            if re.fullmatch(r"[\w ]+", name):
+                structs[name] = val
     return axes, structs
 
 
@@ -93,6 +88,8 @@ def read_state():
     structures: sorted ((name, str(treedef)), ...)
     """
     try:
+        if not _calibrate()["state"]:
+            raise RuntimeError("memo representation changed")
         from jaxtyping._storage import get_shape_memo
 
         s, v, p, a = get_shape_memo()
@@ -111,7 +108,43 @@ def read_state():
         )
 
 
+_CAL = {}
+
+
+def _calibrate():
+    """Do the internals still look the way this adapter expects?  Decided once per process by
+    observing them across public operations whose effect is known."""
+    if _CAL:
+        return _CAL
+    ok_depth = ok_state = False
+    try:
+        from jaxtyping import Float, _storage
+
+        def depth():
+            return len(_storage._shape_storage.memo_stack) if hasattr(_storage._shape_storage, "memo_stack") else 0
+
+        d0 = depth()
+        with jaxtyped("context"):
+            d1 = depth()
+            with jaxtyped("context"):
+                d2 = depth()
+            isinstance(Duck((2,)), Float[Duck, "vfcalibrate"])
+            memo = _storage.get_shape_memo()
+            ok_state = isinstance(memo, tuple) and len(memo) == 4 and memo[0] == {"vfcalibrate": 2}
+        ok_depth = (d1 - d0, d2 - d0, depth() - d0) == (1, 2, 0)
+    except Exception:
+        pass
+    _CAL.update(depth=ok_depth, state=ok_state)
+    if not (ok_depth and ok_state):
+        FALLBACK["used"] = True
+    return _CAL
+
+
 def stack_depth() -> int:
+    """Depth of the current thread's context stack, or -1 when the internals are not readable
+    (callers must then skip depth comparisons)."""
+    if not _calibrate()["depth"]:
+        return -1
     try:
         from jaxtyping import _storage
 
